@@ -33,9 +33,9 @@ def spd(rng, d, lo=0.3):
 
 
 def gen_case(rng, tier):
-    fam = rng.choice(["mean_field", "mean_field", "full_cov", "scalar"])
+    fam = rng.choice(["mean_field", "mean_field", "full_cov", "scalar", "isotropic"])
     est = rng.choice(["reparam", "reparam", "reinforce"])
-    d = 1 if fam == "scalar" else rng.choice([1, 2])
+    d = 1 if fam == "scalar" else (2 if fam == "isotropic" else rng.choice([1, 2]))
     dy = rng.choice([1, 2])
     c = {"family": fam, "estimator": est, "d": d, "dy": dy,
          "m0": [round(rng.uniform(-1, 1), 3) for _ in range(d)], "S0": spd(rng, d),
@@ -84,6 +84,8 @@ def q_params(case, theta):
     fam = case["family"]
     if fam in ("mean_field", "scalar"):
         return theta[:d], np.diag(np.exp(theta[d:2 * d]) ** 2)
+    if fam == "isotropic":
+        return theta[:d], np.eye(d) * np.exp(theta[d]) ** 2
     L = theta[d:].reshape(d, d)
     return theta[:d], L @ L.T
 
@@ -116,6 +118,8 @@ def theta0(case):
         if d == 2:
             L[1, 0] = case["off"]
         return np.concatenate([np.asarray(case["mean"], dtype=np.float64), L.reshape(-1)])
+    if case["family"] == "isotropic":
+        return np.concatenate([np.asarray(case["mean"], dtype=np.float64), np.asarray(case["log_std"][:1], dtype=np.float64)])
     return np.concatenate([np.asarray(case["mean"], dtype=np.float64), np.asarray(case["log_std"], dtype=np.float64)])
 
 
@@ -151,7 +155,16 @@ def build(case):
             multivariate_normal(A @ x, R) @ "y"
 
         cons = {"y": y}
-        if case["family"] == "mean_field":
+        if case["family"] == "isotropic":
+            # user-written isotropic family: per-coordinate means, one shared scale, through the Vmap combinator
+            prim = normal_reparam if case["estimator"] == "reparam" else normal_reinforce
+
+            @gen
+            def family(constraint, params):
+                return prim.vmap(in_axes=(0, None))(params[:d], jnp.exp(params[d])) @ "x"
+
+            to_params = lambda th: jnp.asarray(th, dtype=jnp.float32)
+        elif case["family"] == "mean_field":
             family = mean_field_normal_family(d, case["estimator"])
             to_params = lambda th: jnp.asarray(th, dtype=jnp.float32)
         else:
@@ -172,7 +185,7 @@ def x_of(case, script_sites, theta):
     m, S = q_params(case, theta)
     v = np.asarray(script_sites[0]["value"], dtype=np.float64).reshape(-1)
     if case["estimator"] == "reparam":
-        if case["family"] == "scalar":
+        if case["family"] in ("scalar", "isotropic"):
             return m + np.sqrt(np.diag(S)) * v
         return m + np.linalg.cholesky(S) @ v
     return v
